@@ -95,6 +95,107 @@ func execC08(c CaseC08) *Outcome {
 	var prev []string
 	insertedBetween := false
 	counter := 0
+	// windows and Get by address over the current listing of a replica (full: every amount; otherwise a few) -
+	// asked after every step as well as at the end, since a query may leave something behind that a later merge
+	// makes stale
+	cutBoth := false
+	checkWindows := func(ri int, full bool, when string) *Outcome {
+		ev := cl.Stores[ri].(iface.EventLogStore)
+		L, err := listHashes(ev, &iface.StreamOptions{Amount: &minus1})
+		if err != nil {
+			return fail("List failed: %v", err)
+		}
+		n := len(L)
+		// no options at all: last entry
+		got, err := listHashes(ev, nil)
+		if err != nil {
+			return fail("List(nil) failed: %v", err)
+		}
+		if exp := pick(L, model.Window(n, "", 0, false, 0)); !eqStrings(got, exp) {
+			return fail(when+": replica %d: List(nil) = %v, expected %v", ri, shortAll(got), shortAll(exp))
+		}
+		if n == 0 {
+			return nil
+		}
+		var positions []int
+		if n <= 6 {
+			for i := 0; i < n; i++ {
+				positions = append(positions, i)
+			}
+		} else {
+			positions = []int{0, n - 1}
+			for _, p := range c.Positions {
+				positions = append(positions, p%n)
+			}
+		}
+		type amt struct {
+			set bool
+			v   int
+		}
+		amounts := []amt{{false, 0}, {true, 1}, {true, 2}, {true, -1}}
+		if full {
+			amounts = []amt{{false, 0}, {true, 0}, {true, 1}, {true, 2}, {true, n - 1}, {true, n}, {true, n + 3}, {true, -1}, {true, -7},
+				{true, math.MaxInt32}, {true, math.MaxInt - 1}, {true, math.MaxInt}, {true, math.MinInt}} // "no limit" idioms
+			for _, a := range c.Amounts {
+				amounts = append(amounts, amt{true, a})
+			}
+		}
+		for _, bound := range []string{"", "gt", "gte", "lt", "lte"} {
+			for _, pos := range positions {
+				if bound == "" && pos != positions[0] {
+					continue
+				}
+				for _, a := range amounts {
+					opts := &iface.StreamOptions{}
+					if a.set {
+						v := a.v
+						opts.Amount = &v
+					}
+					h, err := cid.Decode(L[pos])
+					if err != nil {
+						return fail("harness: %v", err)
+					}
+					switch bound {
+					case "gt":
+						opts.GT = &h
+					case "gte":
+						opts.GTE = &h
+					case "lt":
+						opts.LT = &h
+					case "lte":
+						opts.LTE = &h
+					}
+					got, err := listHashes(ev, opts)
+					if err != nil {
+						return fail("List failed: %v", err)
+					}
+					idx := model.Window(n, bound, pos, a.set, a.v)
+					exp := pick(L, idx)
+					if !eqStrings(got, exp) {
+						return fail(when+": replica %d, log of %d: List(%s@%d, amount=%s) returned positions %v, the window is %v",
+							ri, n, bound, pos, amtStr(a.set, a.v), positionsOf(L, got), idx)
+					}
+					if bound != "" && a.set && a.v > 0 && len(idx) == a.v && len(idx) < n-1 && pos > 0 && pos < n-1 {
+						cutBoth = true
+					}
+				}
+			}
+		}
+		for i, hs := range L {
+			h, _ := cid.Decode(hs)
+			op, err := ev.Get(ctx, h)
+			if err != nil {
+				return fail(when+": replica %d: Get(%s) failed: %v", ri, short(hs), err)
+			}
+			if op.GetEntry().GetHash().String() != hs {
+				return fail(when+": replica %d: Get(entry %d) returned entry %s", ri, i, short(op.GetEntry().GetHash().String()))
+			}
+			if string(op.GetValue()) != string(tr.ops[hs].Val) {
+				return fail(when+": replica %d: Get(entry %d) returned a different payload", ri, i)
+			}
+		}
+		return nil
+	}
 	for step, op := range c.Ops {
 		w := op.W % c.Writers
 		switch op.Kind {
@@ -177,100 +278,13 @@ func execC08(c CaseC08) *Outcome {
 				prev = l
 			}
 		}
+		if out := checkWindows(obs, false, fmt.Sprintf("after step %d", step)); out != nil {
+			return out
+		}
 	}
-	// windows over the final listing of the observer and of writer 0
-	cutBoth := false
 	for _, ri := range []int{obs, 0} {
-		ev := cl.Stores[ri].(iface.EventLogStore)
-		L, err := listHashes(ev, &iface.StreamOptions{Amount: &minus1})
-		if err != nil {
-			return fail("List failed: %v", err)
-		}
-		n := len(L)
-		// no options at all: last entry
-		got, err := listHashes(ev, nil)
-		if err != nil {
-			return fail("List(nil) failed: %v", err)
-		}
-		if exp := pick(L, model.Window(n, "", 0, false, 0)); !eqStrings(got, exp) {
-			return fail("replica %d: List(nil) = %v, expected %v", ri, shortAll(got), shortAll(exp))
-		}
-		if n == 0 {
-			continue
-		}
-		var positions []int
-		if n <= 6 {
-			for i := 0; i < n; i++ {
-				positions = append(positions, i)
-			}
-		} else {
-			positions = []int{0, n - 1}
-			for _, p := range c.Positions {
-				positions = append(positions, p%n)
-			}
-		}
-		type amt struct {
-			set bool
-			v   int
-		}
-		amounts := []amt{{false, 0}, {true, 0}, {true, 1}, {true, 2}, {true, n - 1}, {true, n}, {true, n + 3}, {true, -1}, {true, -7},
-			{true, math.MaxInt32}, {true, math.MaxInt - 1}, {true, math.MaxInt}, {true, math.MinInt}} // "no limit" idioms
-		for _, a := range c.Amounts {
-			amounts = append(amounts, amt{true, a})
-		}
-		for _, bound := range []string{"", "gt", "gte", "lt", "lte"} {
-			for _, pos := range positions {
-				if bound == "" && pos != positions[0] {
-					continue
-				}
-				for _, a := range amounts {
-					opts := &iface.StreamOptions{}
-					if a.set {
-						v := a.v
-						opts.Amount = &v
-					}
-					h, err := cid.Decode(L[pos])
-					if err != nil {
-						return fail("harness: %v", err)
-					}
-					switch bound {
-					case "gt":
-						opts.GT = &h
-					case "gte":
-						opts.GTE = &h
-					case "lt":
-						opts.LT = &h
-					case "lte":
-						opts.LTE = &h
-					}
-					got, err := listHashes(ev, opts)
-					if err != nil {
-						return fail("List failed: %v", err)
-					}
-					idx := model.Window(n, bound, pos, a.set, a.v)
-					exp := pick(L, idx)
-					if !eqStrings(got, exp) {
-						return fail("replica %d, log of %d: List(%s@%d, amount=%s) returned positions %v, the window is %v",
-							ri, n, bound, pos, amtStr(a.set, a.v), positionsOf(L, got), idx)
-					}
-					if bound != "" && a.set && a.v > 0 && len(idx) == a.v && len(idx) < n-1 && pos > 0 && pos < n-1 {
-						cutBoth = true
-					}
-				}
-			}
-		}
-		for i, hs := range L {
-			h, _ := cid.Decode(hs)
-			op, err := ev.Get(ctx, h)
-			if err != nil {
-				return fail("replica %d: Get(%s) failed: %v", ri, short(hs), err)
-			}
-			if op.GetEntry().GetHash().String() != hs {
-				return fail("replica %d: Get(entry %d) returned entry %s", ri, i, short(op.GetEntry().GetHash().String()))
-			}
-			if string(op.GetValue()) != string(tr.ops[hs].Val) {
-				return fail("replica %d: Get(entry %d) returned a different payload", ri, i)
-			}
+		if out := checkWindows(ri, true, "at the end"); out != nil {
+			return out
 		}
 	}
 	o.NonTrivial = insertedBetween && cutBoth
